@@ -1,7 +1,7 @@
 use omaha_verif::sim::{exec::*, types::*, world::*};
 fn main() {
     let mut s = Script::default();
-    s.installs = vec![InstallSpec { results: vec![0], progress: vec![0.5, 1.0] }];
+    s.installs = vec![InstallSpec { results: vec![0], progress: vec![0.5, 1.0], concurrent: 0 }];
     let w = new_world(s);
     let mut m = Machine::build(&w, false);
     let end = run_eager(&mut m, StopSpec { checks: 2, max_polls: 10000 });
